@@ -1,11 +1,43 @@
-(* C09 - Caches survive reopen and are repaired to the same state
+(* C09 - Caches across reopen and damage
    Property theorems only: statements, `exact <lemma>`, Print Assumptions, Check pins.
    Layers: F = documented format (Format.v), S = abstract spec (Spec/SpecStep), I = model of the Rust (World.step'). *)
 From Coq Require Import List NArith Bool Arith Sorted.
 From Coq Require Import Strings.Byte.
 Require Import BS.Bytes BS.Common BS.Api BS.Layout BS.Format BS.FormatFacts BS.Spec BS.SpecStep.
-Require Import BS.FS BS.FSFacts BS.Meta BS.MetaFacts BS.Header BS.Reader BS.ReaderFacts BS.Index BS.Data BS.DataFacts BS.Seek BS.Series BS.SeriesFacts.
+Require Import BS.FS BS.FSFacts BS.Meta BS.MetaFacts BS.Header BS.Reader BS.ReaderFacts BS.Index BS.Data BS.DataFacts BS.Seek BS.Series BS.SeriesFacts BS.ReadAllFacts BS.TotalFacts BS.OpenFacts BS.CacheFacts BS.CacheOpenFacts.
 Import ListNotations.
 
-(* theorems for this property are added as the development grows; until then the property is
-   decided by the judge (Layer S/F, extracted) on the implementation and by the correspondence check *)
+
+
+(* (I) The aligned case, payload sizes >= 4: a series with any cache levels whose handle satisfied the invariant RepS (props/C08.v)
+   and whose number of lines is a multiple of every bucket size is reopened with the same configuration: the open succeeds,
+   the new handle satisfies RepS for the SAME lines and levels, and the file system is left exactly as it is (the result state
+   is `fs` itself): intact caches stay byte-identical, nothing is re-appended. Further appends then keep every level equal to
+   the cache of one uninterrupted session (C08_append). *)
+Theorem C09_reopen_aligned : forall p, 4 <= p -> forall fs s uhdr name popt hdropt cb l (Bs:list N),
+  let header := params_to_text BSgen.Consts.version (N.of_nat p) ++ uhdr in
+  RepS fs s p (outer header) (outer []) l (map (open_spec name) Bs) ->
+  of_name (d_file (s_data s)) = name ++ ext_data -> of_name (ix_file (d_index (s_data s))) = name ++ ext_index ->
+  map cache_files (s_down s) = map (cache_names name) Bs ->
+  (len header <= 65535)%N -> (len (encode p l) < 2^64)%N -> (N.of_nat p < 2^64)%N ->
+  (popt = None \/ popt = Some (N.of_nat p)) ->
+  match hdropt with HdrIs e => e = uhdr | HdrAny => True end ->
+  Forall (fun B => (1 <= B)%N /\ (exists k, length l = k * N.to_nat B)
+                   /\ (len (config_header name B) <= 65535)%N /\ (len (encode p (cache_of p (N.to_nat B) l)) < 2^64)%N) Bs ->
+  exists s', builder_open name popt hdropt Bs cb fs = (fs, Ok (s', uhdr))
+    /\ RepS fs s' p (outer header) (outer []) l (map (open_spec name) Bs) /\ s_cb s' = cb.
+Proof. exact reopen_caches_aligned. Qed.
+Print Assumptions C09_reopen_aligned.
+
+(* the repair pass of one level (repair::add_missing_data) adds nothing when the level holds whole buckets of all lines:
+   what lies after the mean of the last bucket is less than a bucket *)
+Theorem C09_repair_adds_nothing : forall p B, B > 0 -> forall fs (src down:data) cb hdr ihdr (l:list (N * list byte)) k,
+  wf_series p l -> length l = k * B ->
+  RepD fs src p hdr ihdr (encode p l) (full_after p None l) (option_map fst (last_opt l)) ->
+  d_last down = option_map fst (last_opt (cache_of p B l)) ->
+  add_missing_data src down (N.of_nat B) cb fs = (fs, Ok down).
+Proof. exact add_missing_aligned. Qed.
+Print Assumptions C09_repair_adds_nothing.
+(* partial: reopen at a line count that is not a multiple of a bucket size, and every damaged state of the caches, are outside
+   these theorems: there the library deviates (known finding D10: the repair resumes after the MEAN timestamp of the last bucket
+   and the open bucket is reset) and the judge reports it as KNOWN-FINDING. Payload sizes 0..3: judged. *)
